@@ -1,7 +1,35 @@
 """C06 worker: evaluate random symbolic-arithmetic expression trees with the real
 operator overloads (in-place and reflected forms included), observe class, variable
 table, coefficients or the exception bucket, and re-observe every operand after
-every operator."""
+every operator.
+
+Coverage of the property text, clause by clause (stream -> what it reaches):
+  constructors  Binary/Spin/Integer/Real (single, with bias, dtype f64/f32/object, explicit or default bounds),
+                Binaries/Spins/Integers/Reals (plural), BinaryArray/SpinArray/IntegerArray (+ ndarray.dot)      [tree]
+  operators     + - * / unary - + ** quicksum sum(), each binary one also in place, `x op= x` on one object,
+                reflected forms via numbers on the left                                                       [tree]
+  numbers       int, float, np.float64, np.float32, np.int64, fractions.Fraction (a Number that is neither
+                float nor numpy), bool (0/1); zero divisors; non-2 powers                                      [tree]
+  mixtures      pre-built BQM (BINARY/SPIN, three dtypes, possibly empty), QM (two dtypes), CQM objective /
+                constraint views - also of CQMs that hold a second expression over shared and over further
+                variables, registered before or after the viewed one                                          [tree]
+  x*x, s*s, i*i products of linear operands with repeated labels of every kind; REAL interactions refused      [tree]
+  promotion     the result's vartype/bounds of every variable all operands agree on are compared with the
+                operands' (py_fail `varinfo_changed`) and with the model's table                              [tree, bounds]
+  conflicts     a clashing vartype or clashing bounds for a shared label (7% + 7% per operand)                [tree]
+                bounds that are equal or differ in exactly one bound or in both, the differing bound being 0,
+                the other bound (lb == ub), one step away, negative, or default; either operand carries
+                either; ONE operator per case: + - * += -= *= quicksum sum (a+k)*(k*b-k) (a+-c)*b b*(a+-c)
+                and <= / >= between two models                                                                [bounds]
+                QuadraticModel.add_variable on an existing label (the merge step of QM.__mul__): bound omitted /
+                None / equal / different (0, other bound, +-step), vartype as str or Vartype, same or not;
+                outcome bucket and that nothing changes                                                       [addvar]
+  operands unmodified   every pool operand re-observed after every operator, also after a raising one; a failing
+                in-place operator must leave its receiver unchanged                                           [all]
+  comparisons   model <=/>=/== number, number on the left, models on both sides, stored via add_constraint    [cmp]
+Not reached: labels that are equal but of different type (1 / 1.0 / True); decimal.Decimal and complex numbers
+(complex is accepted by + and - with the imaginary part dropped under a numpy ComplexWarning - reported);
+bounds beyond 2**53; object-dtype QMs (do not exist)."""
 import copy
 import itertools
 import random
@@ -15,6 +43,7 @@ import gen
 from gen import F, enc_label, dec_label, LabelTable
 
 F32, F64 = np.float32, np.float64
+NUMT = (int, float, np.number, Fraction)
 DT = {'f64': np.float64, 'f32': np.float32, 'obj': object}
 KINDS = ['BINARY', 'BINARY', 'SPIN', 'SPIN', 'INTEGER', 'INTEGER', 'REAL']
 KCOQ = {'BINARY': 'KBin', 'SPIN': 'KSpin', 'INTEGER': 'KInt', 'REAL': 'KReal'}
@@ -22,17 +51,43 @@ KCOQ = {'BINARY': 'KBin', 'SPIN': 'KSpin', 'INTEGER': 'KInt', 'REAL': 'KReal'}
 
 # --------------------------------------------------------------------------- generation
 def rand_bounds(rng, k):
+    """explicit bounds include 0 on either side, negative upper bounds and lb == ub (`if bound:` instead of
+    `if bound is not None:` is a classic slip, and a degenerate interval is a corner of every comparison)"""
     if k == 'INTEGER':
         if rng.random() < 0.3:
             return None, None
-        lb = rng.choice([0, 0, -2, 1])
-        return lb, lb + rng.choice([1, 3, 6])
+        lb = rng.choice([0, 0, -2, 1, -5, -3, -1])
+        return lb, lb + rng.choice([0, 1, 2, 3, 5, 6])
     if k == 'REAL':
         if rng.random() < 0.4:
             return None, None
-        lb = rng.choice([0, -1, -0.5])
-        return lb, lb + rng.choice([1, 2.5])
+        lb = rng.choice([0, -1, -0.5, -2.5, -2])
+        return lb, lb + rng.choice([0, 0.5, 1, 2, 2.5])
     return None, None
+
+
+def bound_variants(rng, k, lb, ub):
+    """bounds for the SAME label in another operand: equal, or differing in exactly one bound / in both, the
+    differing bound being 0, the other bound (degenerate interval), one step away, or left at its default"""
+    step = 1 if k == 'INTEGER' else 0.5
+    lb0 = 0 if lb is None else lb
+    r = rng.random()
+    if r < 0.34:
+        return lb, ub
+    if ub is None:
+        ub_alt = [lb0, lb0 + 3, 0 if lb0 <= 0 else lb0 + 1]
+    else:
+        ub_alt = [0 if lb0 <= 0 else ub + step, lb0, ub + step, ub - step if ub - step >= lb0 else ub + 2 * step, None]
+    lb_alt = [0 if (ub is None or ub >= 0) else lb0 - step, lb0 - step, lb0 - 3 * step,
+              ub if ub is not None else lb0 - 2 * step]
+    if r < 0.62:
+        return lb, rng.choice(ub_alt)
+    if r < 0.88:
+        return rng.choice(lb_alt), ub
+    nl, nu = rng.choice(lb_alt), rng.choice(ub_alt)
+    if nu is not None and nl > nu:
+        nl = nu
+    return nl, nu
 
 
 def small(rng, f32=False):
@@ -90,7 +145,14 @@ def gen_operand(rng, uni):
     if r < 0.85:
         dt = rng.choice(['f64', 'f64', 'f64', 'f32'])
         return {"form": "qm", "dtype": dt, "desc": gen_desc(rng, ents, dt == 'f32')}
-    return {"form": "view", "which": rng.choice(['objective', 'constraint']), "desc": gen_desc(rng, ents, False)}
+    o = {"form": "view", "which": rng.choice(['objective', 'constraint']), "desc": gen_desc(rng, ents, False)}
+    if rng.random() < 0.5:
+        # the parent CQM has a second expression (the objective for a constraint view and vice versa) over some
+        # of the same variables and over variables the viewed expression does not contain
+        have = {str(e[0]) for e in ents}
+        xe = [e for e in ents if rng.random() < 0.5] + [e for e in uni if str(e[0]) not in have and rng.random() < 0.6]
+        o["extra"] = gen_desc(rng, xe, False)
+    return o
 
 
 def gen_desc(rng, vars_, f32):
@@ -114,9 +176,9 @@ def gen_desc(rng, vars_, f32):
 def gen_num(rng):
     v = rng.choice([0, 1, 2, 3, -1, -2, Fraction(1, 2), Fraction(-3, 2), Fraction(5, 2)])
     if Fraction(v).denominator == 1:
-        t = rng.choice(['int', 'int', 'float', 'np64', 'npint'])
+        t = rng.choice(['int', 'int', 'float', 'np64', 'npint', 'frac'] + (['bool', 'bool'] if v in (0, 1) else []))
     else:
-        t = rng.choice(['float', 'float', 'np64', 'np32'])
+        t = rng.choice(['float', 'float', 'np64', 'np32', 'frac'])
     return {"op": "num", "v": str(v), "t": t}
 
 
@@ -182,9 +244,112 @@ def gen_cmp_case(rng):
     return {"kind": "cmp", "uni": uni, "pool": pool, "a": a, "b": b, "sense": sense, "sseed": rng.randrange(1 << 30)}
 
 
+BOUNDS_SHAPES = ['add', 'sub', 'mul', 'iadd', 'isub', 'imul', 'quicksum', 'pysum', 'affmul', 'mulsum', 'cmp']
+
+
+def gen_bounds_case(rng):
+    """stream `bounds`: two or three operands that share an INTEGER / REAL label, each with its own explicit
+    bounds (equal, or differing in one bound or both: 0, negative, lb == ub, default), combined by ONE operator
+    in a random operand order - every operator's rejection of conflicting bounds, for either operand"""
+    k = rng.choice(['INTEGER', 'INTEGER', 'INTEGER', 'REAL'])
+    labels = gen.rand_labels(rng, rng.randint(1, 3))
+    lb, ub = rand_bounds(rng, k)
+    uni = [[enc_label(labels[0]), k, lb, ub]]
+    for l in labels[1:]:
+        k2 = rng.choice(KINDS)
+        b2 = rand_bounds(rng, k2)
+        uni.append([enc_label(l), k2, b2[0], b2[1]])
+    pool = []
+    npool = rng.randint(2, 3)
+    keep_base = rng.randrange(npool)          # one operand carries the base bounds, so conflicts are pairwise
+    for pi in range(npool):
+        nl, nu = (lb, ub) if (pi == keep_base or rng.random() < 0.3) else bound_variants(rng, k, lb, ub)
+        if nu is not None and (0 if nl is None else nl) > nu:
+            nl, nu = lb, ub               # never an invalid interval: the operands themselves must build
+        ent = [uni[0][0], k, nl, nu]
+        others = [e for e in uni[1:] if rng.random() < 0.4]
+        r = rng.random()
+        if r < 0.5 and not others:
+            dt = 'f64' if rng.random() < 0.9 else 'f32'
+            pool.append({"form": "var", "kind": k, "label": ent[0], "lb": nl, "ub": nu, "dtype": dt,
+                         "ctor": 'single', "bias": '1' if rng.random() < 0.7 else str(small(rng))})
+        elif r < 0.9:
+            vs = [ent] + others
+            rng.shuffle(vs)
+            d = gen_desc(rng, vs, False)
+            if rng.random() < 0.8:
+                d["quad"] = []            # linear, so that products reach the variable merge
+            pool.append({"form": "qm", "dtype": 'f64', "desc": d})
+        else:
+            d = gen_desc(rng, [ent] + others, False)
+            pool.append({"form": "view", "which": rng.choice(['objective', 'constraint']), "desc": d})
+    i, j = rng.sample(range(len(pool)), 2)
+    A, B = {"op": "ref", "i": i}, {"op": "ref", "i": j}
+    sh = rng.choice(BOUNDS_SHAPES)
+    if sh in ('add', 'sub', 'mul'):
+        tree = {"op": sh, "a": A, "b": B, "inplace": False}
+    elif sh in ('iadd', 'isub', 'imul'):
+        tree = {"op": sh[1:], "a": A, "b": B, "inplace": True}
+    elif sh in ('quicksum', 'pysum'):
+        items = [A, B] + ([{"op": "ref", "i": rng.randrange(len(pool))}] if rng.random() < 0.3 else [])
+        tree = {"op": sh, "items": items}
+    elif sh == 'affmul':
+        tree = {"op": "mul", "a": {"op": "add", "a": A, "b": gen_num(rng), "inplace": False},
+                "b": {"op": "sub", "a": {"op": "mul", "a": gen_num(rng), "b": B, "inplace": False}, "b": gen_num(rng),
+                      "inplace": False}, "inplace": False}
+    elif sh == 'mulsum':
+        other = {"op": "ref", "i": rng.randrange(len(pool))}
+        tree = {"op": "mul", "a": {"op": rng.choice(["add", "sub"]), "a": A, "b": other, "inplace": False}, "b": B,
+                "inplace": False}
+        if rng.random() < 0.5:
+            tree["a"], tree["b"] = tree["b"], tree["a"]
+    else:
+        return {"kind": "cmp", "stream": "bounds", "uni": uni, "pool": pool, "a": A, "b": B,
+                "sense": rng.choice(['<=', '>=']), "sseed": rng.randrange(1 << 30)}
+    return {"stream": "bounds", "uni": uni, "pool": pool, "tree": tree, "sseed": rng.randrange(1 << 30)}
+
+
+def gen_addvar_case(rng):
+    """stream `addvar`: QuadraticModel.add_variable(vartype, label, lower_bound=.., upper_bound=..) on labels the
+    model already has - the entry point through which QM.__mul__ merges the variables of its operands.  Each
+    bound is omitted, passed as None, equal to the existing one, or different (0, the other bound, one step
+    away); the vartype is given as a string, a Vartype member or occasionally a different one."""
+    n = rng.randint(1, 4)
+    vars_ = []
+    for l in gen.rand_labels(rng, n):
+        k = rng.choice(['INTEGER', 'INTEGER', 'INTEGER', 'REAL', 'REAL', 'BINARY', 'SPIN'])
+        lb, ub = rand_bounds(rng, k)
+        vars_.append([enc_label(l), k, lb, ub])
+    desc = gen_desc(rng, vars_, False)
+    calls = []
+    for _ in range(rng.randint(1, 4)):
+        l, k, lb, ub = rng.choice(vars_)
+        vt = k if rng.random() < 0.85 else rng.choice(['INTEGER', 'REAL', 'BINARY', 'SPIN'])
+        step = 0.5 if vt == 'REAL' else 1
+
+        def pick(have, other):
+            r = rng.random()
+            if r < 0.25:
+                return "omit"
+            if r < 0.32:
+                return "none"
+            if r < 0.62:
+                return "same"
+            base = 0 if have is None else have
+            return rng.choice([0, 0, base + step, base - step, -base if base else step, other if other is not None else 2])
+        calls.append({"label": l, "vt": vt, "vtform": rng.choice(['str', 'enum', 'lower']),
+                      "lb": pick(lb, ub), "ub": pick(ub, lb)})
+    return {"kind": "addvar", "desc": desc, "dtype": rng.choice(['f64', 'f64', 'f64', 'f32']), "calls": calls}
+
+
 def gen_case(rng, tier):
-    if rng.random() < 0.12:
+    r0 = rng.random()
+    if r0 < 0.12:
         return gen_cmp_case(rng)
+    if r0 < 0.24:
+        return gen_bounds_case(rng)
+    if r0 < 0.29:
+        return gen_addvar_case(rng)
     uni = gen_universe(rng)
     pool = [gen_operand(rng, uni) for _ in range(rng.randint(1, 4))]
     tree = gen_tree(rng, rng.randint(1, 4), len(pool), uni)
@@ -245,9 +410,17 @@ def build_operand(o, keep):
     qm = build_qm_desc(o["desc"], np.float64)
     cqm = dimod.ConstrainedQuadraticModel()
     keep.append(cqm)
+    extra = build_qm_desc(o["extra"], np.float64) if "extra" in o else None
     if o["which"] == 'objective':
+        if extra is not None and o["extra"]["vars"] and len(o["extra"]["vars"]) % 2:
+            cqm.add_constraint_from_model(extra, '>=', rhs=0, label='cx')     # registered BEFORE the objective
+            extra = None
         cqm.set_objective(qm)
+        if extra is not None:
+            cqm.add_constraint_from_model(extra, '>=', rhs=0, label='cx')
         return cqm.objective
+    if extra is not None:
+        cqm.set_objective(extra)
     lab = cqm.add_constraint_from_model(qm, '<=', rhs=1, label='c0')
     return cqm.constraints[lab].lhs
 
@@ -289,6 +462,10 @@ def mknum(n):
         return np.float32(float(v))
     if t == 'npint':
         return np.int64(int(v))
+    if t == 'frac':
+        return Fraction(v)          # numbers.Rational: a Number that is neither float nor numpy scalar
+    if t == 'bool':
+        return bool(v)
     raise RuntimeError(t)
 
 
@@ -318,7 +495,7 @@ class Ev:
         if op in ("add", "sub", "mul", "div"):
             a = self.ev(n["a"])
             b = self.ev(n["b"])
-            if op == "div" and isinstance(b, (int, float, np.number)) and b == 0:
+            if op == "div" and isinstance(b, NUMT) and b == 0:
                 # numpy scalars divide by zero to inf with a warning; that is numpy's business
                 b = float(b)
                 if isinstance(a, np.number):
@@ -511,8 +688,8 @@ def run_cmp_case(c):
     try:
         a = E.ev(c["a"])
         b = E.ev(c["b"])
-        anum = isinstance(a, (int, float, np.number))
-        bnum = isinstance(b, (int, float, np.number))
+        anum = isinstance(a, NUMT)
+        bnum = isinstance(b, NUMT)
         if (anum and bnum) or (c["sense"] == '==' and anum == bnum):
             # two numbers, or == between two models: plain Python / is_equal booleans, not comparisons
             return {"coq": None, "features": {"kind": "cmp", "skipped": True}, "nontrivial": False}
@@ -582,9 +759,60 @@ def run_cmp_case(c):
             "nontrivial": o is not None, "observed": o or {}}
 
 
+def run_addvar_case(c):
+    qm = build_qm_desc(c["desc"], DT[c["dtype"]])
+    T = LabelTable([v[0] for v in c["desc"]["vars"]])
+    before = observe(qm)
+    calls, py_fail = [], None
+    feats = {"kind": "addvar", "outcomes": []}
+    for k in c["calls"]:
+        label = dec_label(k["label"])
+        have = [x for x in before["info"] if x[0] == k["label"]][0]
+        kw, given = {}, {}
+        for key, idx, name in (("lb", 2, "lower_bound"), ("ub", 3, "upper_bound")):
+            v = k[key]
+            if v == "omit":
+                given[key] = None
+            elif v == "none":
+                kw[name] = None
+                given[key] = None
+            elif v == "same":
+                kw[name] = float(F(have[idx]))
+                given[key] = F(have[idx])
+            else:
+                kw[name] = v
+                given[key] = F(v)
+        vt = {'str': k["vt"], 'enum': dimod.Vartype[k["vt"]], 'lower': k["vt"]}[k["vtform"]]
+        try:
+            r = qm.add_variable(vt, label, **kw)
+            obs = None
+            if r != label or type(r) is not type(label):
+                py_fail = f"add_variable on an existing label returned {r!r} instead of {label!r}"
+        except TypeError:
+            obs = "ETypeError"
+        except ValueError:
+            obs = "EValueError"
+        except Exception as e:
+            py_fail = f"unexpected exception {type(e).__name__}: {e}"
+            break
+        feats["outcomes"].append(obs or "ok")
+        if observe(qm) != before:
+            py_fail = f"add_variable({k['vt']}, {label!r}, {kw}) on an existing label changed the model: {before} -> {observe(qm)}"
+            feats["addvar_modified"] = True
+            break
+        calls.append(f"(mkAvCall {cnat(T.idx(k['label']))} {k['vt']} {wlib.copt(cq(given['lb']) if given['lb'] is not None else None)} "
+                     f"{wlib.copt(cq(given['ub']) if given['ub'] is not None else None)} {wlib.copt(obs)})")
+    feats["outcomes"] = sorted(set(feats["outcomes"]))
+    coq = f"(mkAvCase {c_tab(before['info'], T)} {clist(calls)})"
+    return {"coq": coq, "check_fn": "check_av", "py_fail": py_fail, "features": feats,
+            "nontrivial": bool(calls), "observed": {"info": before["info"], "calls": calls}}
+
+
 def run_case(c):
     if c.get("kind") == "cmp":
         return run_cmp_case(c)
+    if c.get("kind") == "addvar":
+        return run_addvar_case(c)
     narrowed = False
     keep = []
     pool = [build_operand(o, keep) for o in c["pool"]]
@@ -635,7 +863,7 @@ def run_case(c):
                     else:
                         feats["varinfo_changed"] = True
                     break
-        elif isinstance(r, (int, float, np.number)) and not isinstance(r, bool):
+        elif isinstance(r, NUMT):
             res = f"(ONum {cq(F(r))})"
             feats["result"] = "num"
             observed = {"num": str(F(r))}
